@@ -114,6 +114,17 @@ func (e *Engine) translate(fn *ssa.Function) (res *FuncResult, tr *Trans) {
 	for _, d := range top.defers {
 		entry.assign(d.guard, "false")
 	}
+	if tr.name == "init" {
+		// the package initializer runs once: its guard variable is false on entry
+		for _, m := range fn.Pkg.Members {
+			if g, ok := m.(*ssa.Global); ok && g.Name() == "init$guard" {
+				name := "G_" + sanitize(g.Pkg.Pkg.Name()+"."+g.Name())
+				gv := tr.il.mvar(name, "Bool")
+				gv.Comp = name
+				entry.assume("(not " + cur(gv) + ")")
+			}
+		}
+	}
 	if !strings.HasPrefix(tr.name, "init") {
 		for _, cl := range e.globalInv {
 			te, err := sc.elab(cl.E)
